@@ -259,7 +259,12 @@ def runLine (r : Report) (sec : Nat) (l : Line) : Report :=
     | ["err", cls] =>
       match res with
       | .ok _ => r := r.mismatch sec l.idx "ok" impl
-      | .error e => if e.name ≠ cls then r := r.mismatch sec l.idx s!"err {e.name}" impl
+      | .error e =>
+        if e.name ≠ cls then
+          -- Go iterates maps in random order: when several entries of a map fail, which error is reported
+          -- first is not determined; the verdict (reject) is compared, the class is not
+          if (tyFeatures op.ty).contains "map" then r := r.addCover "map-order-ambiguous-error"
+          else r := r.mismatch sec l.idx s!"err {e.name}" impl
     | "PANIC" :: _ =>
       r := r.violation sec l.idx s!"panic op=[{joinSp l.op}] impl=[{impl}]"
       match res with
